@@ -104,3 +104,55 @@ pub fn c01_ul_into_le_n2() {
         Err(e) => { core::mem::forget(e); assert!(false, "C01.into: enough bytes"); }
     }
 }
+
+// ---- value level: `encode_primitive` of a multi-valued binary value followed by the matching
+// multi-value decoder gives the same items in order (bounded: 2 items) ---------------------------------
+use dicom_core::smallvec::smallvec;
+use dicom_core::value::PrimitiveValue;
+use dicom_encoding::encode::explicit_be::ExplicitVRBigEndianEncoder;
+use dicom_encoding::encode::explicit_le::ExplicitVRLittleEndianEncoder;
+use dicom_encoding::encode::Encode;
+
+pub fn no_bt() -> std::backtrace::Backtrace {
+    std::backtrace::Backtrace::disabled()
+}
+
+macro_rules! value_roundtrip {
+    ($name:ident, $enc:ty, $dec:expr, $var:ident, $ty:ty, $into:ident, $bytes:expr, $cmp:ident) => {
+        #[kani::proof]
+        #[kani::unwind(10)]
+        #[kani::stub(std::backtrace::Backtrace::force_capture, no_bt)]
+        pub fn $name() {
+            let a: $ty = kani::any();
+            let b: $ty = kani::any();
+            let v = PrimitiveValue::$var(smallvec![a, b]);
+            let mut out = [0u8; 2 * $bytes];
+            let r = {
+                let mut w = &mut out[..];
+                Encode::encode_primitive(&<$enc>::default(), &mut w, &v)
+            };
+            match r {
+                Ok(n) => assert!(n == 2 * $bytes, "C01.value: two items occupy twice the item size"),
+                Err(e) => { core::mem::forget(e); assert!(false, "C01.value: encoding into a large enough buffer succeeds"); }
+            }
+            let mut back: [$ty; 2] = [Default::default(); 2];
+            let mut s = &out[..];
+            match $dec.$into(&mut s, &mut back) {
+                Ok(()) => {
+                    assert!(back[0].$cmp() == a.$cmp() && back[1].$cmp() == b.$cmp(), "C01.value: written values read back equal, in order");
+                    assert!(s.len() == 0, "C01.value: reading consumes exactly the bytes written");
+                }
+                Err(e) => { core::mem::forget(e); assert!(false, "C01.value: written values are readable"); }
+            }
+            core::mem::forget(v);
+        }
+    };
+}
+value_roundtrip!(c01_value_u16_le, ExplicitVRLittleEndianEncoder, LittleEndianBasicDecoder, U16, u16, decode_us_into, 2, b16);
+value_roundtrip!(c01_value_u16_be, ExplicitVRBigEndianEncoder, BigEndianBasicDecoder, U16, u16, decode_us_into, 2, b16);
+value_roundtrip!(c01_value_i32_be, ExplicitVRBigEndianEncoder, BigEndianBasicDecoder, I32, i32, decode_sl_into, 4, b32);
+value_roundtrip!(c01_value_u64_le, ExplicitVRLittleEndianEncoder, LittleEndianBasicDecoder, U64, u64, decode_uv_into, 8, b64);
+value_roundtrip!(c01_value_i64_be, ExplicitVRBigEndianEncoder, BigEndianBasicDecoder, I64, i64, decode_sv_into, 8, b64);
+value_roundtrip!(c01_value_f32_be, ExplicitVRBigEndianEncoder, BigEndianBasicDecoder, F32, f32, decode_fl_into, 4, b32);
+value_roundtrip!(c01_value_f64_le, ExplicitVRLittleEndianEncoder, LittleEndianBasicDecoder, F64, f64, decode_fd_into, 8, b64);
+value_roundtrip!(c01_value_f64_be, ExplicitVRBigEndianEncoder, BigEndianBasicDecoder, F64, f64, decode_fd_into, 8, b64);
